@@ -7,6 +7,23 @@ fn usage() -> ! {
     std::process::exit(2);
 }
 
+/// Raise RLIMIT_NOFILE's soft value to the hard value; returns the soft limit now in force.
+fn raise_fd_limit() -> u64 {
+    unsafe {
+        let mut r = libc::rlimit { rlim_cur: 0, rlim_max: 0 };
+        if libc::getrlimit(libc::RLIMIT_NOFILE, &mut r) != 0 {
+            return 1024;
+        }
+        if r.rlim_cur < r.rlim_max {
+            let want = libc::rlimit { rlim_cur: r.rlim_max.min(1 << 20), rlim_max: r.rlim_max };
+            if libc::setrlimit(libc::RLIMIT_NOFILE, &want) == 0 {
+                return want.rlim_cur;
+            }
+        }
+        r.rlim_cur
+    }
+}
+
 fn main() {
     let args: Vec<String> = std::env::args().skip(1).collect();
     if args.is_empty() {
@@ -18,10 +35,14 @@ fn main() {
         .and_then(|s| s.trim().parse::<i128>().ok())
         .map(|v| v as u64)
         .unwrap_or(20260925);
+    // The loopback families keep many sockets open at once: use the whole descriptor allowance of
+    // the process (soft limit raised to the hard limit), and fewer workers where even that is small.
+    let fd_limit = raise_fd_limit();
     let workers: usize = std::env::var("VERIF_WORKERS")
         .ok()
         .and_then(|s| s.parse().ok())
         .unwrap_or_else(|| std::thread::available_parallelism().map(|n| n.get()).unwrap_or(8).min(16));
+    let workers = if fd_limit < 8192 { workers.min((fd_limit / 400).max(1) as usize) } else { workers };
     install_panic_hook();
     let known = KnownFindings::load(&verif_dir);
 
